@@ -31,6 +31,17 @@ def reg(name):
     return int(gdb.parse_and_eval("$" + name)) & 0xffffffffffffffff
 
 def width_of(mn, ops):
+    # stores whose width is not that of their register operand
+    if mn.startswith("vextract"):
+        if "64x4" in mn or "32x8" in mn:
+            return 32
+        return 16  # vextract[if]128, 32x4, 64x2
+    if mn.startswith("kmov"):
+        return {"b": 1, "w": 2, "d": 4, "q": 8}.get(mn[-1])
+    if mn in ("vmovhps", "vmovlps", "vmovhpd", "vmovlpd", "movhps", "movlps", "movhpd", "movlpd", "vmovsd", "movsd"):
+        return 8
+    if mn.startswith(("vpmov", "vcompress", "vpcompress", "vpscatter", "vscatter")):
+        return None  # down-converting / compressing / scattering stores: width not modelled
     # explicit AT&T suffix on integer moves / arithmetic
     for r in ops:
         r = r.strip()
